@@ -64,6 +64,37 @@ inline void put_stmt(std::ostream &o, const z_cfg_t::statement_t &s, const VarTa
     o << "}";
   } else if (s.is_unreachable()) {
     o << "{\"op\":\"unreach\"}";
+  } else if (s.is_arr_init()) {
+    auto &a = static_cast<const B::arr_init_t &>(s);
+    o << "{\"op\":\"ainit\",\"a\":" << vt.find(a.array()) << ",\"es\":" << a.elem_size().constant().get_str() << ",\"lb\":";
+    put_le(o, a.lb_index(), vt);
+    o << ",\"ub\":";
+    put_le(o, a.ub_index(), vt);
+    o << ",\"v\":";
+    put_le(o, a.val(), vt);
+    o << "}";
+  } else if (s.is_arr_write()) {
+    auto &a = static_cast<const B::arr_store_t &>(s);
+    bool single = a.lb_index().equal(a.ub_index());
+    o << "{\"op\":\"" << (single ? "astore" : "astore_range") << "\",\"a\":" << vt.find(a.array()) << ",\"es\":"
+      << a.elem_size().constant().get_str() << ",\"i\":";
+    put_le(o, a.lb_index(), vt);
+    if (!single) {
+      o << ",\"j\":";
+      put_le(o, a.ub_index(), vt);
+    }
+    o << ",\"v\":";
+    put_le(o, a.value(), vt);
+    o << ",\"strong\":" << (a.is_strong_update() ? 1 : 0) << "}";
+  } else if (s.is_arr_read()) {
+    auto &a = static_cast<const B::arr_load_t &>(s);
+    o << "{\"op\":\"aload\",\"x\":" << vt.find(a.lhs()) << ",\"a\":" << vt.find(a.array()) << ",\"es\":"
+      << a.elem_size().constant().get_str() << ",\"i\":";
+    put_le(o, a.index(), vt);
+    o << "}";
+  } else if (s.is_arr_assign()) {
+    auto &a = static_cast<const B::arr_assign_t &>(s);
+    o << "{\"op\":\"aassign\",\"a\":" << vt.find(a.lhs()) << ",\"b\":" << vt.find(a.rhs()) << "}";
   } else {
     o << "{\"op\":\"unknown\"}";
   }
